@@ -31,6 +31,16 @@ CLAIMS = {
         ),
         design_ref="DESIGN.md §4 C12",
     ),
+    "C04": dict(
+        technique="static analysis: multi-way table agreement (abstract interpretation of serializer branches, deserializer branch keys/defaults, JSON-schema definitions, method signatures, operator tables), all extracted from source on every run",
+        text=(
+            "Decides writer/reader/schema agreement, the structural necessary condition of the round-trip: every recordable call has a serializer branch; the 13 ops and 9 waveform kinds agree on the three "
+            "sides in key sets, required/optional split and elided defaults (vs. the Sequence method signatures); positional renderings match the parameter lists; every expression an OpSupport method can "
+            "produce is serialisable, in the schema enum and decodable (and in the legacy SUPPORTED_* tables); the computed detuning_off is what gets recorded. About 430 table rows are compared. "
+            "Behavioural equality of the decoded sequence is a runtime property and is not decided."
+        ),
+        design_ref="DESIGN.md §4 C04",
+    ),
     "C09": dict(
         technique="static analysis: interprocedural write-effect and escaping-raise summaries (ast CFG + call graph with decorator composition), validate-before-mutate ordering rule, read-only effect rule",
         text=(
